@@ -78,6 +78,10 @@ CHECKS = {
          "Exploration: every harvested template and 9 hash-literal snippets (repeated 30-200 times, since map-order dependence shows with probability < 1) through all 8 routes twice, and thousands of random histories over random all-construct programs with side-effecting hash literals and duplicate keys; every (output, normalised error, helper trace) must equal the first one for that template and the program's structural hash must not change.",
          "Schedules are sequential (C14 covers concurrency); equal data = same constructors re-run; for over maps excluded as the licensed variation.",
          "DESIGN.md §4 C13"),
+ "C14": ("race-detector build; enumerated and rapid-generated concurrent scenarios (shared template x G goroutines x context mode x cache mode; concurrent Parse/Render with the cache on; random reader/writer mixes on one context); sequential-equivalence oracle + Go race detector (halt on first report, last noted case = replay)",
+         "Exploration under the race detector: 7 fixed snippets x G in {2..32} x {own root, child of a shared parent} x cache {off (the same *Template and Clones), cold, warm}, plus random all-construct templates, concurrent Parse/Render of equal and different texts, and random Set/Value/Has/New/Exec mixes on one shared context; any race report is a violation and every concurrent result must equal the sequential one.",
+         "Schedules are not controlled or enumerated: 'no race and no divergence in the executions that happened'. A logic race between two individually synchronised operations is caught only if it changes an output. Shared context data is read-only.",
+         "DESIGN.md §4 C14"),
 }
 
 NOT_BUILT = "check not built yet in this session (see DESIGN.md §4 for its plan); will be claimed once its check is committed"
